@@ -56,6 +56,7 @@ enum Op {
     Clear,
     Cycle(usize, u32), // remove + new_node on the slot of uid, n times (generation counter)
     Alias,             // from here on removed nodes are named by the id get_node_id reports for their slot
+    Versus,            // separates two histories whose arenas are compared (C13: `==` is a faithful observation)
 }
 
 fn op_str(o: &Op) -> String {
@@ -75,6 +76,7 @@ fn op_str(o: &Op) -> String {
         Op::RemoveSubtree(x) => format!("remove_subtree {}", x),
         Op::Clear => "clear".into(),
         Op::Alias => "alias".into(),
+        Op::Versus => "versus".into(),
         Op::Cycle(x, n) => format!("cycle {} {}", x, n),
     }
 }
@@ -102,6 +104,7 @@ fn parse_ops(s: &str) -> Vec<Op> {
             "remove_subtree" => Op::RemoveSubtree(n(1)),
             "clear" => Op::Clear,
             "alias" => Op::Alias,
+            "versus" => Op::Versus,
             "cycle" => Op::Cycle(n(1), w[2].parse().unwrap()),
             x if x.starts_with("checked_") => Op::Checked(ins(&x[8..]).unwrap(), n(1), n(2)),
             x => Op::Unchecked(ins(x).unwrap(), n(1), n(2)),
@@ -540,6 +543,7 @@ impl Sut {
             Op::Alias => {
                 self.alias_mode = true;
             }
+            Op::Versus => {}
             Op::Clear => {
                 self.log.borrow_mut().clear();
                 self.arena.clear();
@@ -871,7 +875,55 @@ fn classify_model(v0: Viol, op: &Op) -> Viol {
     }
 }
 
+/// C13: two histories `A versus B`.  If the two arenas compare equal they must be indistinguishable: the same
+/// allocations afterwards return the same ids and leave equal arenas again.
+fn run_versus(ops: &[Op], k: usize) -> Outcome {
+    let build = |part: &[Op]| {
+        catch_unwind(AssertUnwindSafe(|| {
+            let mut t = Sut::new();
+            t.mask = all_props();
+            let mut r2 = BTreeSet::new();
+            for op in part {
+                if t.apply(op, &mut r2).is_err() {
+                    break;
+                }
+            }
+            t
+        }))
+    };
+    let (a, b) = match (build(&ops[..k]), build(&ops[k + 1..])) {
+        (Ok(a), Ok(b)) => (a, b),
+        _ => return Outcome { viol: None, steps: ops.len() },
+    };
+    if a.arena != b.arena {
+        return Outcome { viol: None, steps: ops.len() };
+    }
+    let cont = |mut t: Sut| -> (Vec<NodeId>, Arena<Tok>) {
+        let mut ids = vec![];
+        for i in 0..4u32 {
+            let log = t.log.clone();
+            ids.push(t.arena.new_node(Tok(1000 + i, log)));
+        }
+        (ids, t.arena)
+    };
+    match catch_unwind(AssertUnwindSafe(|| (cont(a), cont(b)))) {
+        Ok(((ia, xa), (ib, xb))) => {
+            if ia != ib || xa != xb {
+                return Outcome { viol: Some(v(&["C13"], format!("the arenas of the two histories compare equal, but four allocations then return {:?} in one and {:?} in the other", ia.iter().map(|x| usize::from(*x)).collect::<Vec<_>>(), ib.iter().map(|x| usize::from(*x)).collect::<Vec<_>>()))), steps: ops.len() };
+            }
+        }
+        Err(_) => {}
+    }
+    Outcome { viol: None, steps: ops.len() }
+}
+
 fn run_seq(ops: &[Op], heartbeat: &Arc<Mutex<(String, Instant)>>, full_checks: bool, mask: &BTreeSet<&'static str>) -> Outcome {
+    if let Some(k) = ops.iter().position(|o| matches!(o, Op::Versus)) {
+        if mask.contains("C13") {
+            return Outcome { viol: None, steps: ops.len() };
+        }
+        return run_versus(ops, k);
+    }
     let mut s = Sut::new();
     s.mask = mask.clone();
     let mut retired = BTreeSet::new();
@@ -1003,6 +1055,11 @@ fn scenarios() -> Vec<Vec<Op>> {
     out.push(parse_ops("new; new; new; cycle 2 32767; remove 0; remove 1; remove 32769; new; new; new; new; remove 32770; remove 32771; new; new"));
     // a node removed at the end of its slot's generation range is still a removed node
     out.push(parse_ops("new; new; cycle 1 32767; remove 32768; checked_append 0 32768; checked_insert_after 0 32768; append 32768 0; new; checked_prepend 32768 0"));
+    // the same nodes freed in two different orders: equal arenas must behave alike
+    out.push(parse_ops("new;new;new;new;new; remove 1; remove 2; remove 3; versus; new;new;new;new;new; remove 1; remove 3; remove 2"));
+    out.push(parse_ops("new;new;new;new;new;new; remove 1; remove 2; remove 3; remove 4; versus; new;new;new;new;new;new; remove 1; remove 3; remove 2; remove 4"));
+    out.push(parse_ops("new;new;new;new;new;new; remove 0; remove 2; remove 4; remove 5; versus; new;new;new;new;new;new; remove 0; remove 4; remove 2; remove 5"));
+    out.push(parse_ops("new;new;new;new; checked_append 0 1; remove 2; remove 3; remove 1; versus; new;new;new;new; checked_append 0 1; remove 3; remove 2; remove 1"));
     // clear with pending free slots
     out.push(parse_ops("new; new; new; remove 1; clear; new; new; new; remove 0; new; new"));
     out.push(parse_ops("new; remove 0; clear; new; remove 0; new; new; remove 1; new"));
@@ -1070,7 +1127,7 @@ fn transcript(ops: &[Op]) -> String {
                         ids[*x].remove_subtree(&mut arena);
                     }
                 }
-                Op::Alias => {}
+                Op::Alias | Op::Versus => {}
                 Op::Clear => {
                     arena.clear();
                     ids.clear();
@@ -1373,6 +1430,24 @@ fn main() {
             nseq += 1;
             nops += ops.len();
             record(&ops, o, &mut found);
+            if nseq % 5 == 0 {
+                // the same walk with two of its removals swapped: if the two arenas compare equal they must behave alike
+                let rem: Vec<usize> = (0..ops.len()).filter(|&i| matches!(ops[i], Op::Remove(_) | Op::RemoveSubtree(_))).collect();
+                if rem.len() >= 2 {
+                    let (i, j) = (rem[r.below(rem.len())], rem[r.below(rem.len())]);
+                    if i != j {
+                        let mut other = ops.clone();
+                        other.swap(i, j);
+                        let mut both = ops.clone();
+                        both.push(Op::Versus);
+                        both.extend(other);
+                        let o = run_seq(&both, &heartbeat, true, &found.keys().cloned().collect());
+                        nseq += 1;
+                        nops += both.len();
+                        record(&both, o, &mut found);
+                    }
+                }
+            }
         }
     }
     let mut parts = vec![];
